@@ -20,6 +20,7 @@ From Coq.Strings Require Import Byte.
 Require Import GV.Base.Res GV.Base.Byt GV.Base.Ints GV.Model.Leb GV.Model.Prim.
 Require Import GV.Spec.OpEncSpec GV.Model.OpWr.
 Require Import GV.Proofs.OpWrProofs GV.Proofs.OpWrDec GV.Proofs.OpWrTotal.
+Require GV.Model.OpDec GV.Model.OpEval GV.Proofs.OpRoundtrip.
 Import ListNotations.
 Local Open Scope N_scope.
 
@@ -306,4 +307,52 @@ Proof. vm_compute. reflexivity. Qed.
 (* a displacement that does not fit i16 *)
 Example far_branch :
   write_op true enc4 None false [0; 3; 40003] 0 (WoSkip 2) = Err WValueTooLarge.
+Proof. vm_compute. reflexivity. Qed.
+
+(* ------------------------------------------------------------------ composition with the reader / evaluator models (C07) *)
+
+(* The independent table of Spec/OpEncSpec.v and the reader model OpDec.parse_op (mirror of read::Operation::parse)
+   agree on every opcode and every operand byte string: whatever the table decodes, the reader decodes to the
+   corresponding operation (OpRoundtrip.tr) and leaves the same rest, in either build mode. *)
+Theorem table_agrees_with_reader : forall (rdbg : bool) (c : dcfg) (bs : list byte) (d : dop) (rest : list byte),
+  decode_one c bs = Some (d, rest) ->
+  exists o, OpRoundtrip.tr d = Some o /\ OpDec.parse_op rdbg (OpRoundtrip.renc c) bs = Ok (o, rest).
+Proof. exact OpRoundtrip.table_agrees_with_reader. Qed.
+
+(* (a) Iterating the reader over what write::Expression emitted ends normally (no error, no leftover) and yields,
+   in order, exactly the reader's forms of the normal forms of the built operations. *)
+Theorem decode_written_by_reader : forall dbg rdbg e uo refs base ex bs fx,
+  forallb wf_op ex = true -> wf_uoffs uo = true -> forallb decodable ex = true ->
+  base + blen bs < 2 ^ 63 ->
+  write_expr dbg e uo refs base ex = Ok (bs, fx) ->
+  exists offsets dl ros,
+    expr_offsets dbg e uo base ex = Ok offsets /\
+    decoded (fun p o d => exists b, normal_form dbg e uo refs offsets p o b d) base ex offsets dl /\
+    OpDec.operations rdbg (OpRoundtrip.renc (dcfg_of e)) bs = (ros, None) /\
+    map (fun x => OpRoundtrip.tr (snd x)) dl = map Some ros.
+Proof. exact OpRoundtrip.decode_written_by_reader_lemma. Qed.
+
+(* (b) Every written DW_OP_skip (is_skip = true) / DW_OP_bra: the reader parses its three bytes to Skip/Bra disp, and
+   the evaluator's compute_pc, standing just after them in the written bytecode, moves the pc to post_t: the
+   written bytes minus pre_t, where pre_t is exactly the emission of the first t operations. The branch lands on
+   the first byte of operation t (or on the end for t = number of operations). *)
+Theorem branches_land_reader : forall (is_skip : bool) dbg rdbg e uo refs base ex bs fx,
+  base + blen bs < 2 ^ 63 ->
+  write_expr dbg e uo refs base ex = Ok (bs, fx) ->
+  forall k t, nth_error ex k = Some (if is_skip then WoSkip t else WoBranch t) ->
+  exists pre_k b post_k disp pre_t post_t offsets offs' fx',
+    bs = pre_k ++ b ++ post_k /\ length b = 3%nat /\
+    OpDec.parse_op rdbg (OpRoundtrip.renc (dcfg_of e)) (b ++ post_k) =
+      Ok ((if is_skip then OpDec.OSkip disp else OpDec.OBra disp), post_k) /\
+    bs = pre_t ++ post_t /\
+    expr_offsets dbg e uo base ex = Ok offsets /\
+    laid (write_op dbg e uo refs offsets) base (firstn (N.to_nat t) ex) offs' pre_t fx' /\
+    forall s, OpEval.s_bytecode s = bs -> OpEval.s_pc s = post_k -> OpEval.compute_pc s disp = Ok post_t.
+Proof. exact OpRoundtrip.branch_lands. Qed.
+
+Example ex1_by_reader :
+  OpDec.operations true (OpRoundtrip.renc (dcfg_of enc4))
+    [x35; x2f; x09; x00; x92; x28; x78; xf3; x04; x55; x28; xfc; xff; x15; x02; xf6; x04; x0e] =
+  ([OpDec.OUnsignedConstant 5; OpDec.OSkip 9; OpDec.ORegisterOffset 40 (-8) 0; OpDec.OEntryValue [x55; x28; xfc; xff];
+    OpDec.OPick 2; OpDec.ODeref 14 4 false], None).
 Proof. vm_compute. reflexivity. Qed.
